@@ -139,6 +139,8 @@ def judge(case):
             cn.COPY = True
     if accepted and not whitelisted and case.get("form", "fn") == "fn" and case["op"] != "dropout":
         _outside_graph(sg, fam, case, base_arrays, diff, v)
+    if accepted and not whitelisted and case["op"] != "dropout":
+        _interior_operands(sg, fam, case, base_arrays, diff, v)
     return {"nontrivial": accepted, "outcome": "accepted" if accepted else "rejected", "violations": viol}
 
 def _outside_graph(sg, fam, case, arrays, diff, v):
@@ -173,6 +175,45 @@ def _outside_graph(sg, fam, case, arrays, diff, v):
             v("gradient-outside-graph-modified", f"operand {k}: the operation ran under no_grad and its result was used as a constant in another graph; "
               f"backward of that graph changed the {'leaf' if now[0] != snap[k][0] else 'retained interior'} gradient of the operand")
             break
+
+def _interior_operands(sg, fam, case, arrays, diff, v):
+    """the operands are not leaves but RESULTS of earlier operations of the same graph (the pre-activation of an affine layer, a
+    reshaped or scaled tensor): they are operands like any other - the call may not overwrite them, neither in its forward nor in
+    its backward, whatever produced them.  Producers are chosen so that the interior tensor holds exactly the lattice values:
+    x * 1.0, x + 0.0, x.reshape(same shape), linear(x, identity) for matrices, conv1d / conv2d with an identity 1x1 kernel."""
+    F = sg.nn.functional
+    fl = [k for k in range(len(arrays)) if np.asarray(arrays[k]).dtype.kind == "f"]
+    if not fl: return
+    apply = (lambda ts: ct.OPS[case["op"]].lib(sg, ts, case.get("args") or {})) if fam is ct else (lambda ts: cn.run_lib(case, arrays, None, ts_override=ts)[0])
+    def eye(n, dt, extra=()): return sg.Tensor(np.eye(n, dtype=dt).reshape((n, n) + extra))
+    producers = {"mul_one": lambda t: t * 1.0, "add_zero": lambda t: t + 0.0, "reshape": lambda t: t.reshape(t.shape),
+                 "affine_identity": lambda t: (F.linear(t, eye(t.shape[1], t.dtype)) if t.ndim == 2 else
+                                               F.conv1d(t, eye(t.shape[1], t.dtype, (1,))) if t.ndim == 3 else
+                                               F.conv2d(t, eye(t.shape[1], t.dtype, (1, 1))) if t.ndim == 4 else None)}
+    for pname, prod in producers.items():
+        try:
+            L = [sg.Tensor(np.array(a, copy=True), requires_grad=(i in fl)) for i, a in enumerate(arrays)]
+            pre = list(L); made = []
+            for k in fl:
+                p = prod(L[k])
+                if p is None or not p.requires_grad or np.asarray(p.data).tobytes() != np.asarray(L[k].data).tobytes(): continue
+                pre[k] = p; made.append(k)
+            if not made: continue
+            snap = {k: np.asarray(pre[k].data).tobytes() for k in made}
+            out = apply(pre)
+            when = "forward"
+            bad = [k for k in made if np.asarray(pre[k].data).tobytes() != snap[k]]
+            if not bad and getattr(out, "requires_grad", False):
+                out.backward(sg.Tensor(np.ones(out.shape, dtype=np.asarray(out.data).dtype)))
+                when = "backward"
+                bad = [k for k in made if np.asarray(pre[k].data).tobytes() != snap[k]]
+        except harness.HarnessError:
+            raise
+        except Exception:
+            continue
+        if bad:
+            v("interior-operand-modified-by-" + when, f"operand {bad[0]} was the result of {pname} (same values as the leaf case): its data changed during the call's {when}")
+            return
 
 def clone_detach_cases():
     out = [{"op": "special:" + k, "shapes": [list(s)], "args": {"rg": r}} for k in ("clone", "detach")
